@@ -191,6 +191,14 @@ Definition cleanup_ok (c : pcase) : bool :=
   | _, _, _ => false
   end.
 
+(* the graph liveness and allocation were computed on is the graph of the function at that point
+   (C09's specification on the nodes left by the two label clean-ups) *)
+Definition cfg_obs_ok (c : pcase) : bool :=
+  let o := snd c in
+  if (o_stage o =? 0) || (5 <? o_stage o)
+  then cfg_spec_b (o_after_labels o) (CfgOK (o_succs o) (o_preds o)) || negb (forallb opcode_flags_ok (instructions (o_after_labels o)))
+  else true.
+
 (* C01: the proved validator (Proofs/SimValidator.v) on the implementation's allocation: liveness is
    recomputed by the (proved exact) model over the reads/writes the property text demands, and no
    definition may land on the storage of another value that is live after it *)
